@@ -13,25 +13,52 @@ TRUST = ("Bounded symbolic execution: the verdict covers every input within the 
          "stubs named in the evidence, and the harness oracles.")
 
 # property -> (claimed?, technique, level text, level_note extra / reason)
+CH = 'CrossHair symbolic execution of the real functions + z3 (per path), counterexamples replayed'
 CLAIMS = {
-    'C04': (True, 'CrossHair symbolic execution of the real filter/call-site code + z3, per-path',
+    'C04': (True, CH,
             'Every path of the real callVariant main loop (stubbed collaborators) is explored for every '
             'skip pattern, thread count and is_valid verdict: a rejected peptide never reaches the table '
-            'and every accepted (peptide,label) pair reaches it exactly once.',
-            'Claimed: call-site dominance of the validity gate in callVariant. Not covered yet: filter '
-            'kernels, table<->FASTA consistency, per-transcript denylist equality.'),
-    'C06': (True, 'CrossHair symbolic execution of the real batching loop + z3, per-path',
+            'and every accepted (peptide,label) pair reaches it exactly once; the canonical pool used for '
+            'filtering is digested with the command\'s own cleavage settings for all option values.',
+            'Claimed: call-site dominance of the validity gate and same-settings pool plumbing. Per-transcript '
+            'denylist equality with the reference digest is outside the claim (needs the graph pipeline).'),
+    'C06': (True, CH,
             'The real call_variant_peptide loop is executed symbolically with the thread count as an '
             'unbounded symbolic integer and the skip pattern as symbolic booleans: the dispatched set, '
             'order and table content are independent of --threads for N<=4 (thorough 6) transcripts.',
             'Claimed: thread-count/batching independence and dispatch order. Process pools are replaced '
             'by a synchronous stub.'),
-    'C07': (True, 'CrossHair symbolic execution with symbolic fault vectors + z3, per-path',
+    'C07': (True, 'CrossHair symbolic execution with symbolic fault vectors + z3, per path',
             'Fault sequences are symbolic boolean vectors: for every subset of failing units (main, <=2 '
             'fusions, <=2 circRNAs) the real per-transcript wrapper isolates failures under --skip-failed '
             'and propagates the first one otherwise; the real main loop tallies exactly the failing units '
             'for every thread count.',
-            'call_canonical_peptides (reference digest) is assumed not to fail; parser CLIs not covered yet.'),
+            'call_canonical_peptides (reference digest) is assumed not to fail.'),
+    'C10': (True, 'regex->SMT window encoding of the live rule tables decided by z3; CrossHair+z3 for digestion',
+            'All 36 cleavage-rule entries: site/range pairing and equivalence with a frozen ExPASy position-set '
+            'formulation for EVERY string over A-Z,* up to length 10 (thorough 14); digestion windows, '
+            'miscleavage bound, length limits, X filter, N-terminal M removal, pool assembly (stop cut, leading X, '
+            'I->L image) and parameter plumbing on symbolic proteins / option values.',
+            'Molecular-weight numerics are stubbed (outside the claim); digestion bounds: protein length <= 6, '
+            '<= 2 sites (thorough 3).'),
+    'C11': (True, CH,
+            'Coordinate conversions are mutually inverse and reject introns for UNBOUNDED symbolic exon '
+            'coordinates (1-3 exons, thorough 4, both strands); extracted sequences equal the strand-corrected '
+            'genome elementwise; ORF start/end and Sec positions agree with CDS/UTR/Sec features; pointer cache '
+            'inductive step from any valid state; GTF byte-range pointers; GTF line round trip.',
+            'Bounds per condition in the evidence file. GtfIO.parse/write over whole files is not encoded '
+            '(only the per-line round trip and the pointer partition).'),
+    'C12': (True, CH,
+            'One inductive step of the index metadata state machine from states built by real registrations; '
+            'save/override/load history over a dict-backed file system; generateIndex/updateIndex digest the pool '
+            'with exactly the parameters they register, for all option values.',
+            'Pickle/JSON serialisation itself and version strings are outside the claim.'),
+    'C13': (True, CH,
+            'GVF text round trip is a fixpoint and preserves positions, alleles, ids and attributes for every '
+            'record kind with the attribute sets the parsers emit (read from source by an AST scan); circRNA '
+            'round trip; byte-offset pointers (generated or via .idx text) give exactly the records of a '
+            'linear scan for unbounded symbolic line lengths incl. multi-byte characters; stale .idx rejected.',
+            'Decimal renderings are modelled by opaque tokens (mpgverif/inttok.py); SHA-512 is stubbed.'),
 }
 
 NOT_YET = 'no solver-based check built for this property in this revision of /verif'
